@@ -549,7 +549,20 @@ class PDFStandardSecurityHandlerV4(PDFStandardSecurityHandler):
             modes.CBC(initialization_vector),
             backend=default_backend(),
         )  # type: ignore
-        return cipher.decryptor().update(ciphertext)  # type: ignore
+        return self._unpad_aes(cipher.decryptor().update(ciphertext))  # type: ignore
+
+    @staticmethod
+    def _unpad_aes(data: bytes) -> bytes:
+        """Remove the PKCS#7 padding of AES-encrypted strings and streams.
+
+        PDF 32000-1 7.6.2: the data is padded to a multiple of 16 bytes with
+        n bytes of value n; malformed padding is left as it is.
+        """
+        if data:
+            n = data[-1]
+            if 1 <= n <= 16 and data.endswith(bytes((n,)) * n):
+                return data[:-n]
+        return data
 
 
 class PDFStandardSecurityHandlerV5(PDFStandardSecurityHandlerV4):
@@ -673,7 +686,7 @@ class PDFStandardSecurityHandlerV5(PDFStandardSecurityHandlerV4):
             modes.CBC(initialization_vector),
             backend=default_backend(),
         )  # type: ignore
-        return cipher.decryptor().update(ciphertext)  # type: ignore
+        return self._unpad_aes(cipher.decryptor().update(ciphertext))  # type: ignore
 
 
 class PDFDocument:
